@@ -7,6 +7,9 @@ translate:      harness/translate_entity.py -> lean/OdfModel/Generated/ParseSite
 proof:          lean/OdfModel/Props/C13.lean about lean/OdfModel/Entity.lean
                 (all_defused, load_parametric, readOrder_sound, moin_guarded, refuses_explicit_partial,
                 refuses_external_subset_partial, C13_full_partial, ...)
+                lean/OdfModel/Props/C13Enc.lean about lean/OdfModel/EntityEnc.lean (the member's character encoding:
+                readE_utf8, refuses_any_encoding_partial, explicit_utf8_partial, explicit_bytes_partial,
+                explicit_undecodable_partial)
 correspondence: (a) which members an entry point parses: model `order` (drv_entity) vs the real code probed
                 with a NOT WELL-FORMED member (a parse is the only way to notice);
                 (b) outcome class of every cell of the fault matrix: model `read` vs real call
@@ -15,6 +18,10 @@ oracle:         the FULL FAULT MATRIX on the real code (both tiers, complete): X
                 (EntitiesForbidden / DTDForbidden / ExternalReferenceForbidden, possibly wrapped); no result may
                 contain the expansion token or the canary token; the canary file / URL must never be opened
                 (sys audit hook + patched urllib.request.urlopen / socket connect).
+                THE SAME FOR EVERY CHARACTER ENCODING OF THE MEMBER (run_encodings: UTF-8 with non-ASCII text / with byte order
+                mark, UTF-16 LE / BE with byte order mark - with, without encoding declaration, without XML declaration -,
+                ISO-8859-1 and windows-1252 with a non-ASCII byte): the call must fail with a defusedxml refusal or a
+                UnicodeError; which of the two is the correspondence with `readE` (drv_entity `readenc`).
 """
 import io, os, re, sys, zipfile, tempfile, shutil, json, contextlib
 from common import enc_str, dec_str, InfraError, REPO
@@ -428,6 +435,20 @@ def defused_in_chain(e):
     return None
 
 
+def unicode_in_chain(e):
+    """the exception class name if e is, or wraps, a UnicodeError (the member's bytes were refused as undecodable)"""
+    seen = set()
+    while e is not None and id(e) not in seen:
+        seen.add(id(e))
+        if isinstance(e, UnicodeError):
+            return type(e).__name__
+        for a in getattr(e, 'args', ()):
+            if isinstance(a, UnicodeError):
+                return type(a).__name__
+        e = e.__cause__ or e.__context__
+    return None
+
+
 EPS = ['load', 'manifestlist', 'odfmanifest', 'UserFields.list_fields', 'UserFields.update',
        'ODF2XHTML.load', 'ODF2XHTML.odf2xhtml', 'ODF2MoinMoin']
 # codes of lean/OdfModel/Entity.lean `EP` (and translate_entity.ENTRY_POINTS)
@@ -502,6 +523,7 @@ def observe(ep, raw, tok, watch, as_path=None):
         'outcome': 'returned' if exc is None else 'raised',
         'exc': None if exc is None else type(exc).__name__,
         'defused': None if exc is None else defused_in_chain(exc),
+        'unicode': None if exc is None else unicode_in_chain(exc),
         'expanded': any(tok.expanded in s for s in hay),
         'canary': any(tok.canary in s for s in hay),
         'touched': touched,
@@ -712,7 +734,7 @@ def run_paths(chk, drv, numbers):
 LAYOUT_EPS = ['load', 'manifestlist', 'UserFields.list_fields', 'ODF2XHTML.odf2xhtml', 'ODF2MoinMoin']
 
 
-def run_matrix(chk, drv=None, verbose=False, only=None, prep=None):
+def run_matrix(chk, drv=None, verbose=False, only=None, prep=None, parsed_out=None):
     """the complete fault matrix (default layout: every cell; other prolog layouts: every cell whose member the entry
     point parses); returns the table {(ep, member, kind, layout): observation}"""
     watch = Watch.install()
@@ -741,6 +763,8 @@ def run_matrix(chk, drv=None, verbose=False, only=None, prep=None):
                 o = observe(ep, raw, tok, watch)
                 noticed = o['outcome'] == 'raised' or o['sax_failed_printed']
                 parsed[(ep, m)] = noticed
+                if parsed_out is not None:
+                    parsed_out[(ep, m)] = noticed
                 if noticed:
                     real.append(m)
                 chk.count('malformed-probe')
@@ -841,6 +865,151 @@ def run_matrix(chk, drv=None, verbose=False, only=None, prep=None):
     return table
 
 
+# ---------------------------------------------------------------------------------------------------------------
+# the dimension CHARACTER ENCODING OF THE MEMBER.  XML lets a member be written in any encoding the parser knows; what the
+# property says does not depend on it: an entity-declaring member the entry point takes in must make the call fail with an
+# explicit exception (a defusedxml refusal, or - the reader not accepting such bytes at all - a UnicodeError), and neither the
+# expansion nor the canary may ever show up.  A step that re-encodes "foreign" members before the refusing parser sees them
+# (through a parser that is not the refusing one) is what this dimension is there to catch.
+# ---------------------------------------------------------------------------------------------------------------
+BOM8 = b'\xef\xbb\xbf'
+# (name, python codec, byte order mark, encoding named by the XML declaration (None: declaration without encoding; False: no XML
+#  declaration at all), a non-ASCII character put into the member (u'' = none), family for the signature)
+ENCODINGS = [
+    ('utf8-nonascii', 'utf-8', b'', u'UTF-8', u'\xe9', 'utf8'),
+    ('utf8-bom-decl', 'utf-8', BOM8, u'UTF-8', u'\u20ac', 'utf8'),
+    ('utf8-bom-nodecl', 'utf-8', BOM8, None, u'', 'utf8'),
+    ('utf16le-bom-decl', 'utf-16-le', b'\xff\xfe', u'UTF-16', u'', 'utf16'),
+    ('utf16le-bom-nodecl', 'utf-16-le', b'\xff\xfe', None, u'\xe9', 'utf16'),
+    ('utf16le-bom-noxmldecl', 'utf-16-le', b'\xff\xfe', False, u'', 'utf16'),
+    ('utf16be-bom-decl', 'utf-16-be', b'\xfe\xff', u'UTF-16', u'\u20ac', 'utf16'),
+    ('utf16be-bom-nodecl', 'utf-16-be', b'\xfe\xff', None, u'', 'utf16'),
+    ('latin1-decl', 'iso-8859-1', b'', u'ISO-8859-1', u'\xe9', '8bit'),
+    ('latin1-decl-lower', 'iso-8859-1', b'', u'iso-8859-1', u'\xff', '8bit'),
+    ('cp1252-decl', 'cp1252', b'', u'windows-1252', u'\u20ac', '8bit'),
+]
+ENC = dict((e[0], e) for e in ENCODINGS)
+ENC_POS = ['before', 'text', 'after']       # where the non-ASCII character stands: comment in the prolog / element text / comment after the root
+
+
+def encode_member(text, encname, pos='before'):
+    """the member text (as inject() returns it, default layout) stored in another character encoding -> bytes"""
+    _, codec, bom, declared, ch, _ = ENC[encname]
+    assert text.startswith(DECL)
+    rest = text[len(DECL):]
+    if declared is False:
+        decl = u''
+    elif declared is None:
+        decl = u"<?xml version='1.0'?>\n"
+    else:
+        decl = u"<?xml version='1.0' encoding='%s'?>\n" % declared
+    if ch:
+        if pos == 'before':
+            rest = u'<!--%s-->' % ch + rest
+        elif pos == 'after':
+            rest = rest + u'<!--%s-->' % ch
+        else:
+            i = rest.index(u'</')           # the first end tag: the character becomes element text
+            rest = rest[:i] + ch + rest[i:]
+    return bom + (decl + rest).encode(codec)
+
+
+def is_utf8(data):
+    try:
+        data.decode('utf-8')
+        return True
+    except UnicodeDecodeError:
+        return False
+
+
+def cls_enc(o):
+    if o['outcome'] == 'raised':
+        return 'forbidden' if o['defused'] else ('undecodable' if o.get('unicode') else 'raised-other')
+    return 'expanded' if (o['expanded'] or o['canary']) else 'clean'
+
+
+def enc_package(target, kind, tok, encname, pos):
+    mem = []
+    for name, data in template():
+        if name == target:
+            data = encode_member(inject(data, kind, tok), encname, pos)
+        mem.append((name, data))
+    return mem
+
+
+def enc_cell(chk, drv, tok, watch, pkgargs, parses, ep, m, k, encname, pos):
+    """one cell of the encoding matrix; k may be a control ('clean' / 'doctype-only')"""
+    mem = enc_package(m, k, tok, encname, pos)
+    data = dict(mem)[m]
+    utf8 = is_utf8(data)
+    o = observe(ep, build(mem), tok, watch)
+    c = cls_enc(o)
+    fam = ENC[encname][5]
+    case = {'ep': ep, 'member': m, 'kind': k, 'encoding': encname, 'pos': pos}
+    control = k in CONTROLS
+    flags = (0, 0) if control else KIND_FLAGS[k]
+    chk.count('enc-cell' if not control else 'enc-control')
+    chk.count('enc.%s.%s' % (encname, c))
+    if not control:
+        chk.case((ep, m, k, 'enc:' + encname, pos), nontrivial=bool(parses),
+                 sample=dict(case, observed=c, exception=o['defused'] or o['exc'], utf8_valid=utf8)
+                 if (len(chk.samples) < 8 and chk.rng.random() < 0.004) else None)
+    # -- oracle (property text)
+    part, where = member_class(m)
+    sig = '%s:%s@%s:%s:enc-%s' % (ep, part, where, 'control' if control else KIND_CLASS[k], fam)
+    if o['expanded'] or o['canary']:
+        report(chk, sig, case, 'the member is stored as %s; the result contains the %s' %
+               (encname, 'expanded entity text' if o['expanded'] else 'content of the canary file'))
+    elif o['touched']:
+        report(chk, sig, case, 'the member is stored as %s; the external resource named by the document was opened: %s' % (encname, o['touched'][:2]))
+    elif not control and (parses or required(ep, m, MANIFEST_ENTRIES)) and c not in ('forbidden', 'undecodable'):
+        if o['outcome'] == 'returned':
+            report(chk, sig + ':silent', case, 'the entry point takes this member in, the member (stored as %s) %s, and the call returned '
+                   'normally: no explicit exception%s' % (encname, 'names an external DTD subset' if flags == (0, 1) else 'declares entities',
+                                                         '; the failure was only printed' if o['sax_failed_printed'] else ''))
+        else:
+            report(chk, sig + ':not-explicit', case, 'the member is stored as %s; raised %s, which is neither (a wrapper of) a defusedxml refusal '
+                   'nor a UnicodeError' % (encname, o['exc']))
+    # -- correspondence with the model (OdfModel.EntityEnc.readE)
+    if drv is not None:
+        ans = drv.ask('readenc %d %s %d %d %d %s' % ((EP_CODE[ep], enc_str(m)) + flags + (1 if utf8 else 0, pkgargs)))
+        chk.corr()
+        got = c if c != 'forbidden' else 'forbidden:' + str(o['defused'])
+        want = {'err forbidden-entities': 'forbidden:EntitiesForbidden', 'err forbidden-external': 'forbidden:ExternalReferenceForbidden',
+                'err undecodable': 'undecodable', 'ok clean': 'clean', 'ok expanded': 'expanded'}.get(ans.strip(), ans)
+        if got != want:
+            chk.corr_diff(case, got + ' ' + str(o['exc'] or ''), ans, 'outcome of the cell (member stored as %s, bytes %svalid UTF-8)' % (encname, '' if utf8 else 'not '))
+    return o
+
+
+def run_encodings(chk, drv, parsed):
+    """encoding x entry point x every XML member the entry point parses (main document and embedded objects) x injection kind
+    (quick: three kinds per (encoding, entry point, member), rotating through all twelve; thorough: all), plus the controls"""
+    watch = Watch.install()
+    tmp = tempfile.mkdtemp(prefix='c13-')
+    try:
+        tok = Tokens(chk.rng, tmp)
+        pkgargs = model_pkg_args()
+        i = chk.rng.randrange(12)
+        for enc in ENCODINGS:
+            encname = enc[0]
+            for ep in EPS:
+                for m in XML_MEMBERS:
+                    if not parsed.get((ep, m)):
+                        continue
+                    i += 1
+                    enc_cell(chk, drv, tok, watch, pkgargs, True, ep, m, CONTROLS[i % 2], encname, ENC_POS[i % 3])
+                    if chk.tier == 'thorough':
+                        cells = [(k, ENC_POS[(i + j) % 3]) for j, k in enumerate(KINDS)]
+                    else:
+                        cells = [(KINDS[(i + 4 * j) % len(KINDS)], ENC_POS[i % 3]) for j in range(3)]
+                    for k, pos in cells:
+                        enc_cell(chk, drv, tok, watch, pkgargs, True, ep, m, k, encname, pos)
+    finally:
+        watch.needles = []
+        shutil.rmtree(tmp, ignore_errors=True)
+
+
 def check_repo_binding():
     import odf, odf.opendocument, odf.odf2xhtml
     mods = [odf, odf.opendocument, odf.odf2xhtml, sys.modules.get('opendocument')]
@@ -857,10 +1026,23 @@ def run(chk, replay=None):
     check_repo_binding()
     chk.rule = ('every cell of: %d XML members (5 top level, 4 in "Object 1/", 4 in further / long-named / nested sub-documents, and 3 members load() must not parse) x %d injection kinds '
                 'x %d entry points, plus controls (clean, bare DOCTYPE) and a not-well-formed probe per (entry point, member); '
-                'non-trivial = the entry point really parses the member' % (len(XML_MEMBERS), len(KINDS), len(EPS)))
+                'non-trivial = the entry point really parses the member; every parsed (entry point, member) again with the member stored in '
+                '%d other character encodings / byte order mark layouts' % (len(XML_MEMBERS), len(KINDS), len(EPS), len(ENCODINGS)))
     if replay is not None and 'input' not in replay:
         print('replay: this file records a broken obligation / correspondence without a failing input; run ./check C13')
         return 1
+    if replay is not None and 'encoding' in replay['input']:
+        c = replay['input']
+        watch = Watch.install()
+        tmp = tempfile.mkdtemp(prefix='c13-')
+        try:
+            tok = Tokens(chk.rng, tmp)
+            o = enc_cell(chk, None, tok, watch, None, True, c['ep'], c['member'], c['kind'], c['encoding'], c.get('pos', 'before'))
+        finally:
+            watch.needles = []
+            shutil.rmtree(tmp, ignore_errors=True)
+        print('replay: %s -> %s' % (c, o))
+        return 1 if (chk.failures or chk.known_hits) else 0
     if replay is not None and 'media' in replay['input']:
         c = replay['input']
         watch = Watch.install()
@@ -909,7 +1091,7 @@ def run(chk, replay=None):
     for s in inv['sites']:
         chk.count('site.' + ('library' if s['library'] else 'script') + '.' + s['origin_name'])
     # 2 prove
-    ok = chk.prove(drivers=['drv_entity'])
+    ok = chk.prove(modules=['OdfModel.Props.C13', 'OdfModel.Props.C13Enc'], drivers=['drv_entity'])
     if not ok:
         chk.lake(['build', 'drv_entity'])
     chk.assumptions.append('C13: behaviour of the two parser kinds (defusedxml raises on an entity declaration / external '
@@ -929,10 +1111,15 @@ def run(chk, replay=None):
     # 3+4 correspondence and oracle: the fault matrix
     drv = chk.driver('drv_entity')
     prep = PrepCheck(chk, inv)
-    run_matrix(chk, drv, prep=prep)
+    parsed = {}
+    run_matrix(chk, drv, prep=prep, parsed_out=parsed)
     chk.assumptions.append('C13: the text pre-processing in front of the SAX parser (__fixXmlPart) preserves the DOCTYPE: hypothesis `Prep` '
                            'of the refusal theorems, validated on every member text of the fault matrix (%d distinct texts, every '
                            'injection kind x prolog layout)' % len(prep.seen))
     run_media(chk, drv)
+    run_encodings(chk, drv, parsed)
+    chk.assumptions.append('C13: a parser refuses an entity declaration in whatever character encoding the member is written (ParserBehaviour is '
+                           'stated on what the DOCTYPE declares, not on bytes): validated by the encoding matrix (%d encodings x entry points x '
+                           'parsed members x injection kinds)' % len(ENCODINGS))
     run_paths(chk, drv, range(2, 100) if chk.tier == 'thorough' else sorted(chk.rng.sample(range(2, 100), 12)))
     return chk.finish()
